@@ -5,6 +5,7 @@ use crate::gas::GasBinder;
 use crate::gateway::GatewayBinder;
 use crate::its::ItsBinder;
 use crate::operators::OperatorsBinder;
+use crate::system::SystemBinder;
 use crate::token::TokenBinder;
 use crate::upgrade::UpgradeBinder;
 use serde_json::Value as J;
@@ -18,6 +19,7 @@ pub enum B {
     Abi(AbiBinder),
     AbiOwn(AbiOwnBinder),
     Its(Box<ItsBinder>),
+    System(Box<SystemBinder>),
 }
 
 impl B {
@@ -31,6 +33,7 @@ impl B {
             B::Abi(b) => b.exec(act),
             B::AbiOwn(b) => b.exec(act),
             B::Its(b) => b.exec(act),
+            B::System(b) => b.exec(act),
         }
     }
     pub fn project(&mut self) -> J {
@@ -43,6 +46,7 @@ impl B {
             B::Abi(b) => b.project(),
             B::AbiOwn(b) => b.project(),
             B::Its(b) => b.project(),
+            B::System(b) => b.project(),
         }
     }
 }
@@ -57,6 +61,7 @@ pub fn make_binder(module: &str, inst: &J, init: &J) -> B {
         "Abi" => B::Abi(AbiBinder::new(inst, init)),
         "AbiOwn" => B::AbiOwn(AbiOwnBinder::new(inst, init)),
         "ITS" => B::Its(Box::new(ItsBinder::new(inst, init))),
+        "System" => B::System(Box::new(SystemBinder::new(inst, init))),
         m => panic!("unknown module {m}"),
     }
 }
